@@ -78,12 +78,22 @@ theorem named_positions :
 /-- the fuel of `derives` suffices: no chain of base types is longer than 8 -/
 theorem derives_fuel : atomXsd.all (fun x => chainLen 20 x ≤ 8) = true := by decide +kernel
 
-/-- every registered signature of the 3.1 parser that lies in the AST is a typed function test and a
-restriction of itself (sanity of the generated list, not a deep fact) -/
-theorem signatures_are_function_tests :
+/-- EVERY registered signature of the 3.1 parser parses into the AST (none is left outside), is a typed
+function test (so it has a declared return type, never the `none` / untyped alias), uses atomic type names
+only, and is a restriction of itself -/
+theorem signatures_all_in_ast :
+    signaturesOutsideAst = 0 ∧ signatures.length = signaturesRegistered ∧
     signatures.all (fun s => match s.2 with
-      | .func _ _ => isRestriction tables s.2 s.2
+      | .func _ _ => s.2.atomicNamesOnly && isRestriction tables s.2 s.2
       | _ => false) = true := by decide +kernel
+
+/-- every registered signature is `flat` (the string-driven restriction check reads it as the grammar does,
+`string_split_agrees_iff_simple`) or is a higher-order signature whose only non-simple arguments are typed
+function tests with simple arguments (fn:for-each, fn:filter, fn:fold-left, array:sort …): for those the
+string splitting of the *registered* text is outside the model (explored on the real code only) -/
+theorem signatures_flat_or_hof :
+    signatures.all (fun s => s.2.flat || s.2.hof1) = true ∧
+    10 ≤ (signatures.filter (fun s => !s.2.flat)).length := by decide +kernel
 
 /-- `isinstance(v, A)` and `issubclass(A, B)` imply `isinstance(v, B)` for every value class and both XSD
 versions of the parser (the XSD 1.1-only types have no instances under an XSD 1.0 parser) -/
